@@ -33,6 +33,7 @@ type modelFont struct {
 	lay       *ref.WLayout
 	want      *type1.Font
 	skipStems map[string]bool
+	ratSB     map[string]bool // glyphs with a rational side bearing
 	feat      map[string]bool
 }
 
@@ -49,10 +50,20 @@ func genModelGlyph(rng *rand.Rand, name string, lay *ref.WLayout, feat map[strin
 	if rng.IntN(3) == 0 {
 		g.SBX = 0
 	}
+	if den > 1 && rng.IntN(3) == 0 {
+		// the left edge of a glyph with rational coordinates; stem edges stay
+		// integers in absolute terms, so their relative positions are rational too
+		g.SBX = co()
+		feat["rational side bearing"] = true
+	}
 	g.WX = int64(rng.IntN(1500)) * den
 	if rng.IntN(8) == 0 {
 		g.UseSBW = true
 		g.SBY = intCo()
+		if den > 1 && rng.IntN(3) == 0 {
+			g.SBY = co()
+			feat["rational side bearing"] = true
+		}
 		g.WY = int64(rng.IntN(2001)-1000) * den
 		feat["sbw with vertical components"] = true
 	}
@@ -138,7 +149,7 @@ func genModelGlyph(rng *rand.Rand, name string, lay *ref.WLayout, feat map[strin
 		feat["staircase of equal fractional steps"] = true
 		return g
 	}
-	// stems: integer edges; only with integral side bearings (always here)
+	// stems: integer edges in absolute coordinates
 	stemList := func() [][2]int64 {
 		var out [][2]int64
 		for i, n := 0, rng.IntN(4); i < n; i++ {
@@ -226,7 +237,7 @@ var modelSegBoost = false
 // a composite of a composite is added (outside C06's domain; used where only
 // determinism or robustness matter).
 func genModelFontOpt(rng *rand.Rand, nested bool) *modelFont {
-	mf := &modelFont{feat: map[string]bool{}, skipStems: map[string]bool{}}
+	mf := &modelFont{feat: map[string]bool{}, skipStems: map[string]bool{}, ratSB: map[string]bool{}}
 	lay := &ref.WLayout{
 		Container: []string{"pfa", "bin", "pfb", "plain"}[rng.IntN(4)],
 		LenIV:     []int{0, 1, 2, 3, 4, 4, 4, 5, 8, 16}[rng.IntN(10)],
@@ -566,6 +577,21 @@ func genModelFontOpt(rng *rand.Rand, nested bool) *modelFont {
 			w.Info["version"] = "1.0\nline2 % comment (x\r\fy"
 		}
 	}
+	anyRat := false
+	for _, g := range w.Glyphs {
+		if g.Den > 1 && (g.SBX%g.Den != 0 || g.SBY%g.Den != 0) {
+			mf.ratSB[g.Name] = true
+			anyRat = true
+		}
+	}
+	if anyRat {
+		// composites are assembled from their components' (inexact) outlines
+		for _, g := range w.Glyphs {
+			if g.Seac != nil {
+				mf.ratSB[g.Name] = true
+			}
+		}
+	}
 	lay.Desc = fmt.Sprintf("%+v", *lay)
 	return mf
 }
@@ -593,7 +619,7 @@ func runC06(r *rt.Runner) {
 				c.Violation("read-error|"+errClass(err), fmt.Sprintf("type1.Read rejected a conforming font (%s): %v", mf.lay.Container, err), "")
 				return
 			}
-			if d := compareFonts(mf.want, f, fontTol{coord: 1e-9, skipStems: mf.skipStems}); len(d) > 0 {
+			if d := compareFonts(mf.want, f, fontTol{coord: 1e-9, skipStems: mf.skipStems, inexact: mf.ratSB}); len(d) > 0 {
 				c.Violation("content|"+diffKind(d[0]), "the font read differs from the font the file describes:\n  "+joinLines(d), "")
 			}
 			c.Count("container " + mf.lay.Container)
